@@ -521,7 +521,13 @@ func (P) Monitor(c *hx.CaseRun) []hx.Failure {
 				fs = append(fs, hx.Failure{Monitor: "decode_terminates", Class: "decode-slow:" + rootOf(op), Site: "libs/ser/decode.go", Msg: "decode did not return within 2 s: " + clipS(op, 300)})
 			}
 			if b2, _ := hx.Arg(hx.Tokens(ans), "b2"); strings.HasPrefix(ans, "ok ") && (b2 == "panic" || b2 == "err") {
-				fs = append(fs, hx.Failure{Monitor: "roundtrip", Class: "decoded-value-cannot-be-reencoded", Site: "libs/ser/decode.go:makeListDecoder", Msg: "the decoder accepts the bytes but its result cannot be encoded (" + b2 + "): " + clipS(op, 300)})
+				// the recorded finding explains exactly one shape: the decoded value (the implementation's own v=) holds a nil
+				// pointer to a type with a custom coder, which the encoder cannot take; anything else is a new defect
+				class := "decoded-value-cannot-be-reencoded-other"
+				if v2, _ := hx.Arg(hx.Tokens(ans), "v"); b2 == "panic" && shapeIn(op, v2, (*Universe).hasNilCustomPtr) {
+					class = "decoded-value-cannot-be-reencoded"
+				}
+				fs = append(fs, hx.Failure{Monitor: "roundtrip", Class: class, Site: "libs/ser/decode.go:makeListDecoder", Msg: "the decoder accepts the bytes but its result cannot be encoded (" + b2 + "): " + clipS(op, 300) + " -> " + clipS(ans, 200)})
 			}
 			if c.Tags["noncanon"] && strings.HasPrefix(ans, "ok ") {
 				bs, _ := hx.Arg(toks, "bytes")
@@ -605,7 +611,7 @@ func (P) Monitor(c *hx.CaseRun) []hx.Failure {
 			if pf, _ := hx.Arg(hx.Tokens(ans), "pfx"); pf != "ok" && !strings.HasPrefix(ans, "panic") {
 				fs = append(fs, hx.Failure{Monitor: "roundtrip", Class: "writer-entry-point:" + pf, Site: "libs/ser/encode.go:toWriter", Msg: "io.Writer entry point: " + clipS(op, 200) + " -> " + ans})
 			}
-			if strings.HasPrefix(ans, "panic") && !c.Tags["nilcustom"] && !c.Tags["nilmapvalue"] {
+			if wv, _ := hx.Arg(toks, "val"); strings.HasPrefix(ans, "panic") && !shapeIn(op, wv, (*Universe).hasNilCustomPtr) && !shapeIn(op, wv, (*Universe).hasNilMapValue) {
 				fs = append(fs, hx.Failure{Monitor: "encode_total", Class: "encode-panic:" + strings.TrimPrefix(ans, "panic "), Site: strings.TrimPrefix(ans, "panic "), Msg: "encoding to a writer panics: " + clipS(op, 200)})
 			}
 		case "rdec":
@@ -656,11 +662,13 @@ func (P) Monitor(c *hx.CaseRun) []hx.Failure {
 			}
 			if strings.HasPrefix(ans, "panic") {
 				site := strings.TrimPrefix(ans, "panic ")
+				// the two recorded encoder findings apply only when the value really holds that nil (decided from val= by the
+				// root's descriptor); any other encode panic keeps its site class
 				class := "encode-panic:" + site
-				if c.Tags["nilcustom"] {
+				ev, _ := hx.Arg(toks, "val")
+				if shapeIn(op, ev, (*Universe).hasNilCustomPtr) {
 					class = "encode-panic-nil-custom-pointer"
-				}
-				if c.Tags["nilmapvalue"] {
+				} else if shapeIn(op, ev, (*Universe).hasNilMapValue) {
 					class = "encode-panic-nil-map-value"
 				}
 				fs = append(fs, hx.Failure{Monitor: "encode_total", Class: class, Site: site, Msg: "encoding panics: " + clipS(op, 300)})
@@ -707,6 +715,74 @@ func arr1ZeroIn(op, val string) (found bool) {
 		return false
 	}
 	return theWorld().u.hasArr1Zero(r.D, ParseV(val))
+}
+
+// shapeIn evaluates a shape predicate on a value text by the descriptor of the op's root
+func shapeIn(op, val string, pred func(*Universe, *Desc, *V) bool) (found bool) {
+	defer func() {
+		if recover() != nil {
+			found = false
+		}
+	}()
+	r := theWorld().byName[rootOf(op)]
+	if r == nil || val == "" {
+		return false
+	}
+	return pred(theWorld().u, r.D, ParseV(val))
+}
+
+// walk applies leaf to every (descriptor, value) pair of a value
+func (u *Universe) walk(d *Desc, v *V, leaf func(*Desc, *V) bool) bool {
+	if leaf(d, v) {
+		return true
+	}
+	switch d.K {
+	case '@':
+		return u.walk(u.Defs[d.N], v, leaf)
+	case 'E':
+		return u.walk(d.Sub[0], v, leaf)
+	case 'L', 'R':
+		for _, e := range v.Sub {
+			if u.walk(d.Sub[0], e, leaf) {
+				return true
+			}
+		}
+	case 'Q':
+		for i, s := range d.Sub {
+			if i < len(v.Sub) && u.walk(s, v.Sub[i], leaf) {
+				return true
+			}
+		}
+	case 'P':
+		return v.K == 'p' && u.walk(d.Sub[0], v.Sub[0], leaf)
+	case 'C', 'D':
+		return v.K == 'p' && u.walk(u.Defs[d.Sub[0].N], v.Sub[0], leaf)
+	case 'c', 'd':
+		return u.walk(u.Defs[d.Sub[0].N], v, leaf)
+	case 'I':
+		return v.K == 'j' && u.walk(&Desc{K: '@', N: u.Reg[v.Idx].Ty}, v.Sub[0], leaf)
+	}
+	return false
+}
+
+// hasNilCustomPtr: a nil pointer to a type with its own EncodeSER (Transaction, TokenTransaction, Log, LogForStorage)
+func (u *Universe) hasNilCustomPtr(d *Desc, v *V) bool {
+	return u.walk(d, v, func(d *Desc, v *V) bool { return (d.K == 'C' || d.K == 'D') && v.K == 'n' })
+}
+
+// hasNilMapValue: a token map with a nil *big.Int value
+func (u *Universe) hasNilMapValue(d *Desc, v *V) bool {
+	return u.walk(d, v, func(d *Desc, v *V) bool {
+		if d.K != 'M' || v.K != 'm' {
+			return false
+		}
+		for _, e := range v.Sub {
+			if e.K == 'n' {
+				return true
+			}
+		}
+		return false
+	})
 }
 
 func (u *Universe) hasArr1Zero(d *Desc, v *V) bool {
